@@ -40,7 +40,7 @@ def pick_style(rnd):
 def gen_alternatives(rnd, crit_ids, n=None, style=None, extra_value_prob=0.0):
     n = n or rnd.choice([1, 2, 2, 3, 3, 4, 4, 5, 6])
     style = style or pick_style(rnd)
-    ids = rnd.sample(ALT_IDS, n) if n <= len(ALT_IDS) else rnd.sample(['a%02d' % i for i in range(40)], n)
+    ids = rnd.sample(ALT_IDS, n) if n <= len(ALT_IDS) else rnd.sample(['a%02d' % i for i in range(max(40, n + 8))], n)
     alts = []
     for i in ids:
         crit = {c: value(rnd, style) for c in crit_ids}
@@ -262,6 +262,9 @@ def current_choice(rnd, alts, chose):
     return rnd.choice(others)
 
 
+NEAR_CAP = [(0.0, 0.1), (0.1, 0.1), (0.2, 0.1), (0.3, 0.1), (0.1, 0.09), (0.1, 0.075), (0.2, 0.08), (0.25, 0.075), (0.3, 0.35), (0.12, 0.22)]
+
+
 def level_params(rnd, crits, alts, increasing, explicit_prob=0.35):
     """(function, params) for a level source of the given family"""
     if rnd.random() < explicit_prob:
@@ -279,7 +282,13 @@ def level_params(rnd, crits, alts, increasing, explicit_prob=0.35):
                 ths.append(dict(t))
         return 'thresholds', {'thresholds': ths}
     dyadic = rnd.random() < 0.5
-    if dyadic:
+    if rnd.random() < 0.15:
+        # decimal steps whose repeated float addition misses round numbers by a last bit (0 + 10 x 0.1 = 0.9999999999999999):
+        # a level just below the cap 1 / just above the floor is a level of the series like any other
+        coef = rnd.choice([0.1, 0.1, 0.05, 0.2, 0.3, 0.075, 0.15])
+        mn = rnd.choice([0.0, 0.1, 0.2, 0.3, 0.35, 0.5, 0.7]) if increasing else rnd.choice([0.1, 0.2, 0.05, 0.3])
+        mx = rnd.choice([1.0, 1.0, 1.0, 0.9, 0.8])
+    elif dyadic:
         coef = rnd.choice([0.25, 0.5, 0.125, 0.75])
         mn = rnd.choice([0.0, 0.25, 0.5, 0.125, 1.0]) if increasing else rnd.choice([0.25, 0.5, 0.125, 0.0625, 1.0])
         mx = rnd.choice([0.5, 0.75, 1.0, 0.25, 0.0, 1.0])
@@ -290,6 +299,11 @@ def level_params(rnd, crits, alts, increasing, explicit_prob=0.35):
     if not increasing and mn <= 0:
         mn = 0.125
     mul = rnd.random() < 0.5
+    if increasing and rnd.random() < 0.06:
+        # additive series that pass within a last bit of the cap 1 without reaching it (0 + 10 x 0.1 = 0.9999999999999999 < 1):
+        # that level is a level of the series, and the cap follows it
+        mn, coef = rnd.choice(NEAR_CAP)
+        mx, mul = 1.0, False
     fn = 'idealMultipliedCoefficient' if mul else ('idealAdditiveCoefficient' if increasing else 'idealSubtractiveCoefficient')
     return fn, {'coefficient': coef, 'minValue': mn, 'maxValue': mx}
 
@@ -356,6 +370,23 @@ def large_request(rnd, method=None, lo=16, hi=40):
     for i in ids:
         if i not in keep and i != cc and rnd.random() < 0.9:
             req['choseToMake'].append(i)
+    return req
+
+
+def many_alternatives_request(rnd, method=None, lo=65, hi=70):
+    """more alternatives than a machine word has bits (index sets kept as bit masks, fixed-size buffers): all of them considered,
+    one or two criteria, many ties"""
+    method = method or rnd.choice(METHODS)
+    n = rnd.randint(lo, hi)
+    if method in UTILITY:
+        req = utility_request(rnd, method, n_alts=n, n_crits=rnd.choice([1, 2]))
+    elif method == 'electreIII':
+        req = electre_request(rnd, n_alts=n, n_crits=rnd.choice([1, 1, 2]), style=rnd.choice(['posgrid', 'real', 'real']))
+    else:
+        req = heuristic_request(rnd, method, n_alts=n, n_crits=rnd.choice([1, 2]))
+    req['choseToMake'] = [a['id'] for a in req['knownAlternatives']]
+    if rnd.random() < 0.5:
+        rnd.shuffle(req['choseToMake'])
     return req
 
 
@@ -435,8 +466,10 @@ def split_opts(rnd, n_crits, keep_one=True):
         o['min'] = rnd.randint(0, max(0, n_crits - 1))
     if rnd.random() < 0.4:
         o['max'] = rnd.randint(o.get('min', 0), max(o.get('min', 0), n_crits - 1))
-    if keep_one and 'max' not in o:
-        o['max'] = max(o.get('min', 0), n_crits - 1)   # at least one criterion is kept
+    if keep_one and 'max' not in o and rnd.random() < 0.88:
+        o['max'] = max(o.get('min', 0), n_crits - 1)   # at least one criterion is kept (not always: a split may take every criterion)
+    elif keep_one and 'max' not in o and rnd.random() < 0.5:
+        o['ratio'] = 1.0
     od = rnd.choice(ORDERINGS)
     if od:
         o['ordering'] = od
@@ -481,7 +514,10 @@ def gen_bias(rnd, name, req, n_crits):
             p['mixingRatio'] = rnd.choice([0.0, 0.5, 1.0, 0.25, round(rnd.random(), 2)])
     else:
         k = rnd.choice([1, 1, 2, 3])
-        anch = [{'alternative': rnd.choice(alts), 'coefficient': rnd.choice([1.0, 0.5, 2.0, 1.5, 0.25])} for _ in range(k)]
+        anch = [{'alternative': rnd.choice(alts), 'coefficient': rnd.choice([1.0, 0.5, 2.0, 1.5, 0.25, 1.0, 0.0])} for _ in range(k)]
+        for x in anch:
+            if rnd.random() < 0.08:
+                del x['coefficient']   # a coefficient left out is 0
         applier = rnd.choice(['inline', 'inline', 'newCriterion'])
         ap = bounding_opts(rnd)
         if applier == 'inline':
